@@ -8,12 +8,12 @@ CHECKS = {
     },
     'C02': {
         'technique': 'runtime monitoring: reference-model checker over recorded scalar request/response logs, release + overflow-checked builds of both scalar backends',
-        'text': 'Every public scalar constructor/operator/batch/int-conversion is executed on class-tagged corner values (k*l+-e, 2^252.., limb-boundary patterns, 512-bit extremes, products landing on either side of the final Montgomery subtraction) plus seeded random fill, in the u64 and u32 scalar backends (release and overflow-checked profiles); every response byte is judged against Python integer arithmetic mod l.',
+        'text': 'Every public scalar constructor/operator/batch/int-conversion is executed on class-tagged corner values (k*l+-e, 2^252.., limb-boundary patterns, 512-bit extremes, products landing on either side of the final Montgomery subtraction) plus seeded random fill, in the u64 and u32 scalar backends (release and overflow-checked profiles); every response byte is judged against Python integer arithmetic mod l. Every canonical-bytes decoding is also asked of PrimeField::from_repr / from_repr_vartime.',
         'note': ORACLE,
     },
     'C03': {
         'technique': 'runtime monitoring: affine-group-law reference checker + curve-equation invariant on hooked coordinates after every step of recorded operation histories',
-        'text': 'Decoder sweep over constructed encoding classes (all torsion encodings, non-canonical y, sign bit on x=0, non-residues), a directed (op x operand relation x torsion class) matrix and random operation histories whose registers carry the exact internal (X,Y,Z,T) through the raw-limb hook; every result is checked against the complete affine addition law and the invariants -X^2Z^2+Y^2Z^2=Z^4+dX^2Y^2, XY=ZT, Z!=0.',
+        'text': 'Decoder sweep over constructed encoding classes (all torsion encodings, non-canonical y, sign bit on x=0, non-residues), a directed (op x operand relation x torsion class) matrix and random operation histories whose registers carry the exact internal (X,Y,Z,T) through the raw-limb hook; every result is checked against the complete affine addition law and the invariants -X^2Z^2+Y^2Z^2=Z^4+dX^2Y^2, XY=ZT, Z!=0. Results of mul / mul_base / double-base / constant-time and variable-time multiscalar steps re-enter the histories.',
         'note': ORACLE,
     },
     'C04': {
@@ -28,7 +28,7 @@ CHECKS = {
     },
     'C06': {
         'technique': 'runtime monitoring: RFC 9496 reference checker over recorded decode/encode/equality/map/batch logs with constructed rejection classes and coset representatives',
-        'text': 'ristretto255 DECODE/ENCODE/MAP transcribed from RFC 9496 judge: decoder sweep with each rejection class solved for, all four coset representatives of generated elements (equal, identical encoding), distinct elements (unequal), one-way map on corner inputs via public API, pass-through digest and hook, batched double-and-compress incl. torsion representatives, and operation histories.',
+        'text': 'ristretto255 DECODE/ENCODE/MAP transcribed from RFC 9496 judge: decoder sweep with each rejection class solved for, all four coset representatives of generated elements (equal, identical encoding), distinct elements (unequal), one-way map on corner inputs via public API, pass-through digest and hook, batched double-and-compress incl. torsion representatives, and operation histories. Scalar-multiplication results re-enter the histories; every encoding is also given to GroupEncoding::from_bytes(_unchecked); identity representatives are also viewed through the group traits.',
         'note': ORACLE,
     },
     'C07': {
@@ -38,17 +38,17 @@ CHECKS = {
     },
     'C08': {
         'technique': 'runtime monitoring: RFC 8032 reference checker over recorded keygen/sign/verify logs incl. hazmat paths with a pass-through digest',
-        'text': 'Seeds (corner+random) x boundary-length messages x contexts 0..255 (+ refusal at 256, 257, 1000): public key and signature bytes (pure, ph, ctx, three signing paths, hazmat with SHA-512 and a pass-through digest placing r and k) judged against RFC 8032 in Python; every produced signature is fed to all verify variants and batch, then re-verified with one flipped bit in key/message/context/R/S.',
+        'text': 'Seeds (corner+random) x boundary-length messages x contexts 0..255 (+ refusal at 256, 257, 1000): public key and signature bytes (pure, ph, ctx, three signing paths, hazmat with SHA-512 and a pass-through digest placing r and k) judged against RFC 8032 in Python; every produced signature is fed to all verify variants and batch, then re-verified with one flipped bit in key/message/context/R/S. The 64-byte keypair rule is also driven through TryFrom<&pkcs8::KeypairBytes> and PKCS#8 v1/v2, SPKI and PEM documents (matching, mismatching, torsion-translated and undecodable public halves), and the context-free DigestSigner/DigestVerifier/Verifier trait impls and From<SecretKey> are compared with the inherent API.',
         'note': ORACLE,
     },
     'C09': {
         'technique': 'runtime monitoring: predicate reference checker over constructed adversarial (key,message,signature) triples on legacy and non-legacy builds',
-        'text': 'Adversarial triples are constructed (not mutated): torsion keys and R in every accepted encoding with messages searched so that [k]A cancels / does not cancel, mixed-order keys, cofactored-only solutions, S in [l,2^256) incl. S+l, S+2l, non-canonical R, undecodable keys/R, plus the VALIDATIONVECTORS file; verify, verify_strict, raw_verify and prehashed variants are judged against the documented predicate evaluated in Python over the full group of order 8l.',
+        'text': 'Adversarial triples are constructed (not mutated): torsion keys and R in every accepted encoding with messages searched so that [k]A cancels / does not cancel, mixed-order keys, cofactored-only solutions, S in [l,2^256) incl. S+l, S+2l, non-canonical R, undecodable keys/R, plus the VALIDATIONVECTORS file; verify, verify_strict, raw_verify and prehashed variants are judged against the documented predicate evaluated in Python over the full group of order 8l. The key object is built by from_bytes, TryFrom<&[u8]>, bincode or JSON at random; is_weak and the stored key bytes are checked for every encoding of every small-order point; raw_verify is also judged with a pass-through digest.',
         'note': ORACLE,
     },
     'C10': {
         'technique': 'runtime monitoring: valgrind memcheck as secret-taint monitor (secret bytes marked undefined, any tainted branch/address reported) + ptrace single-step instruction/address trace differ between runs that differ only in the secret',
-        'text': 'Each constant-time operation runs in the release driver with its secret inputs marked undefined through valgrind client requests; memcheck (precise definedness) reports any conditional jump or address computation that depends on them, attributed to one request by error-counter deltas; outputs that the API defines as public are declassified. A ptrace single-stepper records the RIP and memory-operand address sequence between two markers for runs that differ only in the secret and requires them identical (mandatory for IFMA, which valgrind cannot execute).',
+        'text': 'Each constant-time operation runs in the release driver with its secret inputs marked undefined through valgrind client requests; memcheck (precise definedness) reports any conditional jump or address computation that depends on them, attributed to one request by error-counter deltas; outputs that the API defines as public are declassified. A ptrace single-stepper records the RIP and memory-operand address sequence between two markers for runs that differ only in the secret and requires them identical (mandatory for IFMA, which valgrind cannot execute). Constant-time multiscalar multiplication is traced at 1..8, 190 and 200 terms.',
         'note': 'Decided for the compiled artefact of the pinned compilers on x86-64, for the instructions valgrind/ptrace observe, along executed paths. Micro-architectural timing is out of scope. One reviewed tainted-but-constant site is listed in ct_invariant_sites.json.',
     },
     'C11': {
@@ -58,7 +58,7 @@ CHECKS = {
     },
     'C12': {
         'technique': 'runtime monitoring: complete enumeration - constants dump monitor through hooks from every build + one public-API probe multiplication per table entry under every dispatch target',
-        'text': 'Finite set enumerated completely on every run: every crate-private field/scalar/point constant, all 32x8 radix-16 entries, 64 affine odd multiples, 64 AVX2 and 64 IFMA cached odd multiples, P_TIMES_*, identities, dumped as raw limbs from each build and compared with definitions recomputed in Python; plus a behavioural probe (single-digit scalars selecting each entry) through the public API.',
+        'text': 'Finite set enumerated completely on every run: every crate-private field/scalar/point constant, all 32x8 radix-16 entries, 64 affine odd multiples, 64 AVX2 and 64 IFMA cached odd multiples, P_TIMES_*, identities, dumped as raw limbs from each build and compared with definitions recomputed in Python; plus a behavioural probe (single-digit scalars selecting each entry) through the public API. The public ff::PrimeField constants are checked against their defining relations.',
         'note': ORACLE + ' Constants of dependencies are out of scope.',
     },
     'C13': {
@@ -73,12 +73,12 @@ CHECKS = {
     },
     'C15': {
         'technique': 'runtime monitoring: panic monitor (catch_unwind) over a totality sweep in release and overflow-checked builds; ASan build in thorough',
-        'text': 'Every slice decoder at every length 0..96, array decoders, all verification functions incl. batch, hash-to-group/scalar maps, X25519 and conversions on random bytes and on algebraically exceptional inputs solved for in Python (zero denominators, u=-1, 1+2r^2 special, y=+-1, s=0, torsion keys/R), contexts of every length; any panic or process death is a violation.',
+        'text': 'Every slice decoder at every length 0..96, array decoders, all verification functions incl. batch, hash-to-group/scalar maps, X25519 and conversions on random bytes and on algebraically exceptional inputs solved for in Python (zero denominators, u=-1, 1+2r^2 special, y=+-1, s=0, torsion keys/R), contexts of every length; any panic or process death is a violation. Serde visitors are driven in every shape a data format may choose (JSON text, serde_json::Value, SeqDeserializer with exact size hints, byte strings) for every type and length 0..96; PKCS#8/SPKI DER and PEM documents with every truncation and single-byte corruption.',
         'note': 'Out-of-contract API usage (unequal-length iterators, zero to batch_invert, verification contexts > 255) is outside the property domain.',
     },
     'C16': {
         'technique': 'runtime monitoring: reference checker of serialised bytes and deserialiser accept sets (bincode, strict bincode, JSON) against the native decoders modelled in Python',
-        'text': 'Every serialisable type x {bincode, bincode rejecting trailing bytes, JSON} x {valid corner/random values, each invalid class of the native decoder, short, long, wrong element type}: serialised bytes must equal canonical encoding + format framing, deserialise(serialise(v)) = v, and each deserialiser must accept exactly what the native decoder accepts; StaticSecret must round-trip unclamped.',
+        'text': 'Every serialisable type x {bincode, bincode rejecting trailing bytes, JSON} x {valid corner/random values, each invalid class of the native decoder, short, long, wrong element type}: serialised bytes must equal canonical encoding + format framing, deserialise(serialise(v)) = v, and each deserialiser must accept exactly what the native decoder accepts; StaticSecret must round-trip unclamped. JSON inputs are offered as text (no size hint), as serde_json::Value and through SeqDeserializer (exact size hints).',
         'note': ORACLE + ' Format-level behaviour (bincode tolerating trailing bytes by default) is not held against the crates.',
     },
     'C17': {
